@@ -87,6 +87,31 @@ def run(prog, rep):
         if f not in branches:
             rep.violation('R1', loc(nxpg.module, sg), 'NetworkXPropertyGraph.serialize_graph', f'{f} branch missing', f'{f} can no longer be produced')
 
+    # every producer serialises the extracted copy of THIS graph (not the store, which holds the other graphs too)
+    sgi = nxg.method(prog, nxpg, sg)
+    gvars = {t.id for a in walk_no_nested(sgi) if isinstance(a, ast.Assign) and isinstance(a.value, ast.Call) and call_name(a.value) == 'extract_graph'
+             for t in a.targets if isinstance(t, ast.Name)}
+    grew = True
+    while grew:
+        grew = False
+        for a in walk_no_nested(sgi):
+            if isinstance(a, ast.Assign) and isinstance(a.value, ast.Name) and a.value.id in gvars:
+                for t in a.targets:
+                    if isinstance(t, ast.Name) and t.id not in gvars:
+                        gvars.add(t.id)
+                        grew = True
+    producers = [c for c in walk_no_nested(sgi) if isinstance(c, ast.Call) and call_name(c) in ('generate_graphml', 'node_link_data', 'cytoscape_data', 'write_graphml')]
+    for c in producers:
+        a0 = c.args[0] if c.args else (c.keywords[0].value if c.keywords else None)
+        okp = isinstance(a0, ast.Name) and a0.id in gvars
+        rep.instance('R1', f'serialize_graph: {call_name(c)}({norm(a0, 50) if a0 is not None else ""}) serialises the extracted copy: {okp}')
+        if not okp:
+            rep.violation('R1', loc(nxpg.module, c), 'NetworkXPropertyGraph.serialize_graph', f'{call_name(c)} applied to {norm(a0, 60) if a0 is not None else None}',
+                          f'{call_name(c)} must be given the copy extracted for this graph id; the store object holds every graph of the '
+                          f'process, so the text of one model contains the nodes of the others and does not import back as the same graph')
+    if not producers:
+        raise AnalysisError('serialize_graph: no networkx producer call found')
+
     # ---- R2 ----
     gml = prog.cls(GML)
     n2n_raw = gml.methods.get('networkx_to_neo4j')
@@ -410,6 +435,16 @@ def run(prog, rep):
                 rep.violation('R4', loc(smod, sc), fq, norm(sc, 110),
                               f'the lookup for an already stored graph with this id searches {tgt} instead of the store: a '
                               f're-import under an occupied id does not replace the old graph, node ids and edges are duplicated')
+            # ... by the GraphID of its nodes
+            try:
+                cj_ = nxg.parse_query(prog, sc.args[1], smod, st) if len(sc.args) > 1 else []
+            except AnalysisError:
+                cj_ = []
+            by_gid = any(op_ == 'eq' and fld_ == 'GraphID' and isinstance(v_, ast.Name) and v_.id == gparam for op_, fld_, v_ in cj_)
+            if not by_gid:
+                rep.violation('R4', loc(smod, sc), fq, f'existing-graph lookup by {[(o_, f_) for o_, f_, _ in cj_]}',
+                              'the lookup for an already stored graph must select the nodes whose GraphID is the id being imported; '
+                              'any other key finds nothing (or something else), the old graph is not replaced and node ids are duplicated')
     # an already stored graph of that id is removed whenever the lookup finds any node of it (shared store, both insert flavours)
     st_sh = nxg.storage_class(prog, nxg.SHARED_SHELL)
     for mname in ('add_graph', 'add_graph_direct'):
